@@ -675,8 +675,17 @@ func (s *Service) handleBackup(w http.ResponseWriter, r *http.Request, qp QueryP
 	}
 	addBackupFormatHeader(w, qp)
 
-	addr, err := s.proxy.Backup(r.Context(), br, w, makeCredentials(r), qp.Timeout(defaultTimeout), qp.Redirect())
+	bw := &backupResponseWriter{ResponseWriter: w}
+	addr, err := s.proxy.Backup(r.Context(), br, bw, makeCredentials(r), qp.Timeout(defaultTimeout), qp.Redirect())
 	if err != nil {
+		if bw.n > 0 {
+			// Part of the backup has already been sent, with a 200 status, so
+			// an error status can no longer be delivered. Abort the response so
+			// the client sees a broken transfer, not a complete but truncated
+			// backup with an error message appended to it.
+			s.logger.Printf("backup failed after %d bytes were sent: %s", bw.n, err.Error())
+			panic(http.ErrAbortHandler)
+		}
 		if errors.Is(err, proxy.ErrNotLeader) {
 			s.DoRedirect(w, r, qp)
 			return
@@ -700,6 +709,18 @@ func (s *Service) handleBackup(w http.ResponseWriter, r *http.Request, qp QueryP
 	w.Header().Set(ServedByHTTPHeader, addr)
 
 	s.lastBackup = time.Now()
+}
+
+// backupResponseWriter counts the bytes of a backup written to the client.
+type backupResponseWriter struct {
+	http.ResponseWriter
+	n int64
+}
+
+func (b *backupResponseWriter) Write(p []byte) (int, error) {
+	n, err := b.ResponseWriter.Write(p)
+	b.n += int64(n)
+	return n, err
 }
 
 // handleLoad loads the database from the given SQLite database file or SQLite dump.
